@@ -17,7 +17,7 @@ CLAIMS: dict = {
              'family (sound, complete, duplicates, order, grouping); (3) every _core accessor passes the right '
              'rowid/table/scope and builds its result from the right columns. Converters/declared types are decided on '
              'schema.sql and _db.py.',
-        note='Assumed: A-SQLITE, A-DECL, A-JSON; order of SELECTs without ORDER BY is left to SQLite (A-ORDER). '
+        note='Assumed: A-SQLITE, A-DECL, A-JSON; order of SELECTs without ORDER BY is left to SQLite (A-ORDER) and observed on one corner document added to a real database (bounded: document order of every repeated child, repeats, synset without part of speech, phonemic=false, empty metadata values, parallel sense-synset relations). '
              '_batch and _collect_frames enter the proof by contract; the contracts are checked by bounded stand-ins '
              '(labelled bounded, not counted). The composition of the three layers into the per-observable statements '
              'is hand-argued (DESIGN 5 C01.4). XML reading itself is C02/C20. Related known findings K1, K13 are '
@@ -73,7 +73,7 @@ CLAIMS: dict = {
              'implementation of the documented table.',
         note='A-GLOB (SQLite GLOB) is exercised only by the bounded part; A-SPLIT; specifier lists longer than two tokens '
              'are covered by the per-token structure of the loop (each token handled independently, duplicates filtered '
-             'through one set). Fixed finding F9. wn.remove(specifier) removes exactly the selection: bounded stand-in on the same databases (fixed finding F22).',
+             'through one set). Fixed finding F9. wn.remove(specifier) removes exactly the selection: bounded stand-in on the same databases (fixed finding F22). The `lexicons` subcommand of the command line lists what wn.lexicons() selects: bounded, same databases.',
         technique='contract-based deductive verification: symbolic execution with z3 strings + SQL AST obligations; bounded '
                   'end-to-end stand-in for GLOB semantics',
         engines=['pyvc', 'sqlvc', 'bounded']),
@@ -310,7 +310,7 @@ CLAIMS: dict = {
     'C16': dict(
         category='other',
         text='Two contracts decided on the AST of every function of the wn package (399 functions, re-read on every run): '
-             '(order) no value whose order comes from iterating a set reaches a return, yield, index, first-element, '
+             '(order) no value whose order comes from iterating a set reaches a return, yield, index, first-element, output (print / json.dump / write), '
              'join, early-exit or tie-breaking (min/max/sorted with key) sink - a conservative taint analysis with '
              'sorted()/set()/sum()/any()/all()/len()/membership as the only cleansers; (purity) no function stores '
              'into module-level mutable state (also through a local alias) except the connection pool. The sites '
